@@ -435,7 +435,11 @@ func (s *SIP) ParseHeader(header []byte) (err error) {
 	if header[0] == '\t' || header[0] == ' ' {
 
 		header = bytes.TrimSpace(header)
-		s.Headers[s.lastHeaderParsed][len(s.Headers[s.lastHeaderParsed])-1] += fmt.Sprintf(" %s", string(header))
+		last := s.Headers[s.lastHeaderParsed]
+		if len(last) == 0 {
+			return fmt.Errorf("invalid SIP header continuation line without a preceding header")
+		}
+		last[len(last)-1] += fmt.Sprintf(" %s", string(header))
 		return
 	}
 
@@ -447,6 +451,9 @@ func (s *SIP) ParseHeader(header []byte) (err error) {
 		headerValue := string(bytes.Trim(header[index+1:], " "))
 
 		// Add header to object
+		if s.Headers == nil {
+			s.Headers = make(map[string][]string)
+		}
 		s.Headers[headerName] = append(s.Headers[headerName], headerValue)
 		s.lastHeaderParsed = headerName
 
